@@ -245,7 +245,7 @@ class Tracer:
                 for t in w.get_placed_tasks():
                     try:
                         al = [
-                            [next(k + 1 for k, r in enumerate(self.inst[key]) if r.id == res.id), q]
+                            [next(k + 1 for k, r in enumerate(self.inst[key]) if r.id == res.id and r.name == res.name), q]
                             for res, q in w.get_allocated_resources(t)
                         ]
                     except Exception:  # noqa
@@ -293,7 +293,7 @@ class Tracer:
             self.prof_index(prof),
             self.tm(strat.runtime),
             [{"name": r.name, "id": r.id, "q": q} for r, q in strat.resources.resources],
-            [[next(k + 1 for k, r in enumerate(self.inst[key]) if r.id == res.id), q] for res, q in al],
+            [[next(k + 1 for k, r in enumerate(self.inst[key]) if r.id == res.id and r.name == res.name), q] for res, q in al],
         ]
 
     def tidx_by_strid(self, sid):
